@@ -173,6 +173,16 @@ func reifyInto(opts *options, to reflect.Value, from *Config) Error {
 
 	switch k {
 	case reflect.Map:
+		if to.Kind() == reflect.Ptr { // nil pointer to a map: allocate the map first
+			if !to.CanSet() {
+				return raisePointerRequired(to)
+			}
+			to.Set(reflect.New(to.Type().Elem()))
+			return reifyInto(opts, to, from)
+		}
+		if to.IsNil() && !to.CanSet() {
+			return raisePointerRequired(to)
+		}
 		return reifyMap(opts, to, from, nil)
 	case reflect.Struct:
 		return reifyStruct(opts, to, from)
